@@ -6,7 +6,7 @@
 From Coq Require Import List ZArith.
 From PM Require Import Model.Data Model.Tree Model.StepMap Model.Step Model.Transform Spec.Tokens Proofs.TransformProofs
   Proofs.ReplaceValid Proofs.SliceSides Proofs.SliceShape Proofs.TokenLaws Proofs.StepTokens
-  Proofs.TokenInj Proofs.ReplaceCanon Proofs.DocEquality Proofs.AroundUndo Proofs.AttrUndo Model.Resolve Model.Mark Proofs.MarkProofs.
+  Proofs.TokenInj Proofs.ReplaceCanon Proofs.DocEquality Proofs.AroundUndo Proofs.AttrUndo Proofs.HistoryUndo Model.Resolve Model.Mark Proofs.MarkProofs.
 Import ListNotations.
 Local Open Scope nat_scope.
 
@@ -118,6 +118,37 @@ Theorem C04_doc_attr_step_undo : forall s attr value doc d' inv d'',
   d'' = doc.
 Proof. exact doc_attr_step_undo. Qed.
 Print Assumptions C04_doc_attr_step_undo.
+
+(* ------------------------------------------------------------------ whole histories
+   [inverses s d sts]: the inverse of every step, each built from the document the step was applied to, in undo
+   order (last step first). [UndoableAll]: every step is a replace / replace-around / attribute / document-attribute
+   step meeting the hypotheses of its single-step theorem above. [Run s e invs r]: the inverses apply one after the
+   other, each to a valid document, and give r.
+   For ANY sequence of attempted steps (so: for every history the transform API can record, rejected operations
+   included), undoing the recorded steps in reverse order - starting from the final document or from any valid
+   document with its token sequence - restores exactly the token sequence of the starting document. *)
+Theorem C04_history_undo : forall s d attempted invs e r,
+  let t := fold_left (fun t st => fst (maybe_step s t st)) attempted (tr_init d) in
+  inverses s (tr_before t) (t_steps t) = Ok invs ->
+  UndoableAll s (tr_before t) (t_steps t) ->
+  check s e = true -> DT s e = DT s (t_doc t) ->
+  Run s e invs r ->
+  DT s r = DT s (tr_before t).
+Proof.
+  intros s d attempted invs e r t Hinv Hall _ HeT Hrun.
+  destruct (history_replay s d attempted) as (Hrep & _).
+  exact (history_undo_tokens s _ _ _ _ Hrep Hinv Hall e r HeT Hrun).
+Qed.
+Print Assumptions C04_history_undo.
+
+(* ... and for histories of replace steps with normal-form slices over a normal-form document, the restored
+   document is EQUAL (Node.eq) to the starting one *)
+Theorem C04_replace_history_undo_gives_equal_document : forall s sts d dn invs r,
+  NormalDoc s d -> ReplaceHist s d sts -> UndoableAll s d sts ->
+  replay s d sts = ROk dn -> inverses s d sts = Ok invs -> Run s dn invs r ->
+  node_eqb r d = true.
+Proof. exact replace_history_undo_eq. Qed.
+Print Assumptions C04_replace_history_undo_gives_equal_document.
 
 (* the hypotheses are met: wrapping the first paragraph of the example document of Properties/C01.v in a
    blockquote (ReplaceAroundStep(0, 4, 0, 4, <blockquote()>, 1)) applies, gives a valid document, and the
